@@ -57,8 +57,12 @@ class Inserter:
         if self.r.random() < 0.3:
             k = self.r.randint(2, 4)
             self.stacked += 1
-        for _ in range(k):
-            n = call("MetaData", n, self.md())
+        # adjacent wrappers whose dictionaries compare equal (1 == True == 1.0, 0.0 == -0.0) but are different values
+        twins = self.r.choice([[C(1), C(True), C(1.0)], [C(0.0), C(-0.0), C(0)], [C("a"), C("a"), C(b"a")]]) if (k >= 2 and self.r.random() < 0.4) else None
+        if twins:
+            self.twins = getattr(self, "twins", 0) + 1
+        for i in range(k):
+            n = call("MetaData", n, ast.Dict(keys=[C("tw")], values=[twins[i % 3]]) if twins else self.md())
             self.n += 1
             if in_lambda:
                 self.in_lambda += 1
@@ -177,6 +181,14 @@ def judge(ctx, q, stats, info):
         ctx.violation("remove:ast-differs", f"{astx.first_diff(got, exp)} | in: {witness['query'][:400]} | out: {astx.unparse(got)[:300]}", witness)
     if astx.dump_fields(arg) != snap:
         ctx.violation("remove:argument-modified", f"the AST passed in changed: {astx.first_diff(arg, q)} | in: {witness['query'][:400]}", witness)
+    else:
+        # ... and stays unmodified when the caller goes on to edit what it got back (what back ends do with it)
+        from ..history import vandalise
+
+        vandalise(got)
+        if astx.dump_fields(arg) != snap:
+            ctx.violation("remove:editing-the-result-changes-the-argument", f"after editing the returned AST in place the AST that was passed in reads {astx.unparse(arg)[:200]} | in: {witness['query'][:300]}", witness)
+        ctx.count("obligation:result-edited-argument-rechecked")
     ctx.count("obligation:remove-checked")
     if len(ctx.samples) < 4 and nt and ctx.rnd.random() < 0.03:
         ctx.sample({"in": witness["query"], "extracted": astx.unparse(got_ast) if got_ast is not None else None, "cleaned": astx.unparse(got)})
